@@ -92,6 +92,9 @@ struct C08 : Scenario {
             double I = c.currents[0];
             std::vector<std::vector<double>> pats = {{I, I}, {I, 0, I}, {0, I, I}, {I, I, 0}, {I, I, I, I}, {I, 0, I, 0}, {0, I, 0, I, I, I}};
             auto pat = r.pick(pats);
+            // 40 %: unequal currents (shares no longer powers of two: compared with a relative tolerance) - a bunch normalised
+            // or measured with another bunch's charge only shows when the charges differ
+            if (r.chance(0.4)) { double f = 1; for (auto& v : pat) if (v > 0) { v *= f; f *= r.uniform(1.3, 2.2); } }
             p.setdlist("pattern", pat);
             // a second pattern with the same occupied bunches but other empty buckets
             std::vector<double> alt;
@@ -210,21 +213,26 @@ struct C08 : Scenario {
         H5Snap s1, sm, sm2; Derived d1, dm, dm2;
         if (!launch(o, single, rc, "single", entropy, s1, d1) || !launch(o, multi, rc, "multi", entropy, sm, dm) || !launch(o, multi2, rc, "multi2", entropy, sm2, dm2)) return;
         unsigned nb = dm.nbunches, n = (unsigned)cfg.grid;
-        float share = 1.0f / nb;
-        bool pow2 = (nb & (nb - 1)) == 0;
+        bool equal = true;
+        for (unsigned b = 1; b < nb; b++) if (dm.shares[b] != dm.shares[0]) equal = false;
+        bool pow2 = equal && (nb & (nb - 1)) == 0;
+        auto share_of = [&](unsigned b) { return equal ? 1.0f / nb : dm.shares[b]; };
         std::string patdesc = plan.get("pattern");
         // per-bunch scalar columns equal the single-bunch run; extensive quantities scale with the share
         struct Col { const char* name; double scale; };
-        std::vector<Col> cols = {{"/BunchLength/data", 1}, {"/BunchPosition/data", 1}, {"/EnergySpread/data", 1}, {"/EnergyAverage/data", 1},
-                                 {"/BunchPopulation/data", share}, {"/CSR/Intensity/data", (double)share * share}};
+        // scale: 0 = intensive, 1 = proportional to the share, 2 = to its square
+        std::vector<Col> cols = {{"/BunchLength/data", 0}, {"/BunchPosition/data", 0}, {"/EnergySpread/data", 0}, {"/EnergyAverage/data", 0},
+                                 {"/BunchPopulation/data", 1}, {"/CSR/Intensity/data", 2}};
         for (auto& c : cols) {
             auto a = s1.f32(c.name), b = sm.f32(c.name);
             size_t rows = s1.rows(c.name);
             if (b.size() != a.size() * nb) { o.fail("C08.identical_bunches", std::string(c.name) + ": shapes differ between single- and multi-bunch run"); continue; }
             for (size_t k = 0; k < rows && !o.has("C08.identical_bunches"); k++) for (unsigned bb = 0; bb < nb; bb++) {
                 o.checks++;
-                float expect = (float)(a[k] * (float)c.scale), got = b[k * nb + bb];
-                bool ok = pow2 ? (f2u(expect) == f2u(got) || (expect == got)) : std::fabs(got - expect) <= 1e-5 * std::fabs(expect) + 1e-12;
+                float sh = share_of(bb);
+                float fac = c.scale == 0 ? 1.0f : c.scale == 1 ? sh : sh * sh;
+                float expect = (float)(a[k] * fac), got = b[k * nb + bb];
+                bool ok = pow2 ? (f2u(expect) == f2u(got) || (expect == got)) : std::fabs(got - expect) <= 2e-5 * std::fabs(expect) + (c.scale == 0 ? 2e-6 : 1e-7);
                 if (!ok && !(std::isnan(expect) && std::isnan(got))) { o.fail("C08.identical_bunches", "filling " + patdesc + ": " + c.name + " record " + std::to_string(k) + " bunch " + std::to_string(bb) + " = " + fmt_g(got, 9) + " but the single-bunch run has " + fmt_g(expect, 9)); break; }
             }
         }
@@ -235,10 +243,12 @@ struct C08 : Scenario {
             if (b.size() != a.size() * nb) { o.fail("C08.identical_bunches", std::string(nme) + ": shapes differ"); continue; }
             for (size_t k = 0; k < rows && !o.has("C08.identical_bunches"); k++) for (unsigned bb = 0; bb < nb; bb++) {
                 o.checks++;
+                double rowmax = 0;
+                for (size_t i = 0; i < rl; i++) rowmax = std::max(rowmax, (double)std::fabs(a[k * rl + i] * share_of(bb)));
                 for (size_t i = 0; i < rl; i++) {
-                    float expect = a[k * rl + i] * share, got = b[(k * nb + bb) * rl + i];
+                    float expect = a[k * rl + i] * share_of(bb), got = b[(k * nb + bb) * rl + i];
                     // scaling by a power of two is exact except in the subnormal range (far tails below 1.2e-38)
-                    bool ok = pow2 ? (expect == got || (std::fabs(expect) < 2e-38f && std::fabs(got - expect) <= 1e-42f)) : std::fabs(got - expect) <= 1e-5 * std::fabs(expect) + 1e-20;
+                    bool ok = pow2 ? (expect == got || (std::fabs(expect) < 2e-38f && std::fabs(got - expect) <= 1e-42f)) : std::fabs(got - expect) <= 2e-5 * std::fabs(expect) + 3e-6 * rowmax;   // (unequal shares: rounding relative to the largest value of the record)
                     if (!ok && !(std::isnan(expect) && std::isnan(got))) { o.fail("C08.identical_bunches", "filling " + patdesc + ": " + nme + " record " + std::to_string(k) + " bunch " + std::to_string(bb) + " element " + std::to_string(i) + " = " + fmt_g(got, 9) + " but share x single-bunch value = " + fmt_g(expect, 9)); break; }
                 }
                 if (o.has("C08.identical_bunches")) break;
@@ -251,7 +261,7 @@ struct C08 : Scenario {
             auto a = sm.get(nme), b = sm2.get(nme);
             if (!a || !b || !a->same(*b)) { o.fail("C08.empty_buckets", std::string(nme) + " differs between filling " + patdesc + " and " + plan.get("pattern2") + " (same bunches, other empty buckets, no impedance)"); break; }
         }
-        o.probe("cls.same.nb" + std::to_string(nb) + "of" + std::to_string(pat.size()) + ".ip" + std::to_string(cfg.interp) + (cfg.linearRF ? ".lin" : ".sin") + (cfg.tdamp != 0 ? ".fp" + std::to_string(cfg.fptype) : ""));
+        o.probe(std::string("cls.same.") + (equal ? "eq" : "uneq") + ".nb" + std::to_string(nb) + "of" + std::to_string(pat.size()) + ".ip" + std::to_string(cfg.interp) + (cfg.linearRF ? ".lin" : ".sin") + (cfg.tdamp != 0 ? ".fp" + std::to_string(cfg.fptype) : ""));
         o.nontrivial = true;
         o.sample = "prog_same filling=" + patdesc + " alt=" + plan.get("pattern2") + " " + cfg.summary();
     }
